@@ -6,6 +6,21 @@ fn main() {
         fault("usage: vcheck <property|calibrate> [--tier quick|thorough] [--replay file]");
     }
     let id = argv[1].clone();
+    if id == "probe" {
+        // developer aid: show what the library and the reference say about a text (from a file or literal)
+        let arg = argv.get(2).cloned().unwrap_or_default();
+        let text = std::fs::read_to_string(&arg).unwrap_or(arg.replace("\\n", "\n"));
+        println!("reference: {}", vlib::tomlref::decode(&text).0.short());
+        match text.parse::<toml_edit::DocumentMut>() {
+            Ok(d) => println!("DocumentMut ok:\n{}---\n{}", d, vlib::model::tbl_to_json(&vlib::model::from_doc(&d))),
+            Err(e) => println!("DocumentMut err: message={:?} span={:?}\n{}", e.message(), e.span(), e),
+        }
+        match toml::from_str::<toml::Table>(&text) {
+            Ok(_) => println!("toml ok"),
+            Err(e) => println!("toml err: {:?} {:?}", e.message(), e.span()),
+        }
+        std::process::exit(0);
+    }
     let mut tier = match std::env::var("VERIF_TIER").as_deref() {
         Ok("thorough") => Tier::Thorough,
         _ => Tier::Quick,
